@@ -367,6 +367,7 @@ theorem pols_from_hist : âˆ€ (h : List HStep) (ds : DS) (p : Nat Ã— (PolicyKey Ã
         | profLabels _ _ => exact Or.inl h1
         | profRules _ _ => exact Or.inl h1
         | tier _ _ => exact Or.inl h1
+        | passthru _ _ _ => exact Or.inl h1
         | other => exact Or.inl h1
       | inSync => exact Or.inl h1
       | flush => exact Or.inl h1
